@@ -233,3 +233,62 @@ Fixpoint convert_loop (fuel : nat) (buf : list N) (pos : Z) (ticks : N) : res (l
 
 Definition convert_sample_to_byte_stream (bs : list N) : res (list N * N) :=
   convert_loop (walk_fuel bs) bs 0 0.
+
+(* ================================================================== stage 2 *)
+(* sei.DecodePicTimingHevcSEI (sei/sei1_hevc.go after fix 2b4b54d) over the EBSP reader model of
+   C13 (imported read-only): fixed-width reads whose widths come from the caller, then a loop driven
+   by an UNTRUSTED ue(v) count that appends per iteration and breaks at the first read error.
+   `du_loop` is the shape of every count-driven loop repaired by the C16 fix: commits. *)
+From V.c13 Require Import C13Model.
+
+Record hpt_params := mkHP {
+  hp_ffi : bool; hp_cpb : bool; hp_subpic : bool; hp_subpic_in_pt : bool;
+  hp_la : N; hp_lb : N; hp_lc : N; hp_ld : N }.   (* the four *_length_minus1 values *)
+
+(*  for i := uint64(0); i <= uint64(N); i++ {
+        nal = append(nal, uint32(ue)); if !common && i < N { inc = append(inc, uint32(Read(w))) }
+        if br.AccError() != nil { break } }                                     *)
+Fixpoint du_loop (fuel : nat) (count i : N) (common : bool) (w : N) (s : rstate)
+         (nal inc : list N) (ticks : N) : res (list N * list N * rstate * N) :=
+  match fuel with
+  | O => OutOfFuel
+  | S f =>
+      if i <=? count then
+        let '(v, s1) := read_ue s in
+        let nal' := u32 v :: nal in
+        let '(inc', s2) :=
+          if negb common && (i <? count) then let '(x, s2) := read s1 w in (u32 x :: inc, s2)
+          else (inc, s1) in
+        if rerr s2 then Ok (nal', inc', s2, ticks + 1)
+        else du_loop f count (i + 1) common w s2 nal' inc' (ticks + 1)
+      else Ok (nal, inc, s, ticks)
+  end.
+
+Definition du_fuel (data : list N) : nat := S (S (8 * length data + 8)).
+
+(* result: the nine scalar fields, NumNalusInDuMinus1, DuCpbRemovalDelayIncrementMinus1, error flag, ticks *)
+Definition decode_pic_timing_hevc (p : hpt_params) (payload : list N)
+  : res (list N * list N * list N * bool * N) :=
+  let s := rinit payload in
+  let '(ps, sst, dup, s) :=
+    if hp_ffi p then
+      let '(a, s) := read s 4 in let '(b, s) := read s 2 in let '(c, s) := read_flag s in
+      (u8 a, u8 b, c, s)
+    else (0, 0, false, s) in
+  if hp_cpb p then
+    let '(au, s) := read s (hp_la p + 1) in
+    let '(dpb, s) := read s (hp_lb p + 1) in
+    if hp_subpic p then
+      let '(dud, s) := read s (hp_lc p + 1) in
+      if hp_subpic_in_pt p then
+        let '(ndu, s) := read_ue s in
+        let ndu := u32 ndu in
+        let '(common, s) := read_flag s in
+        let '(cinc, s) := if common then read s (hp_ld p + 1) else (0, s) in
+        do r <- du_loop (du_fuel payload) ndu 0 common (hp_ld p + 1) s [] [] 0;
+        let '(nal, inc, s, t) := r in
+        Ok ([ps; sst; if dup then 1 else 0; u32 au; u32 dpb; u32 dud; ndu; if common then 1 else 0; u32 cinc],
+            rev nal, rev inc, rerr s, t)
+      else Ok ([ps; sst; if dup then 1 else 0; u32 au; u32 dpb; u32 dud; 0; 0; 0], [], [], rerr s, 0)
+    else Ok ([ps; sst; if dup then 1 else 0; u32 au; u32 dpb; 0; 0; 0; 0], [], [], rerr s, 0)
+  else Ok ([ps; sst; if dup then 1 else 0; 0; 0; 0; 0; 0; 0], [], [], rerr s, 0).
